@@ -7,6 +7,8 @@ VARIABLE act
 
 MCPageDev2  == <<1, 2, 1>>
 MCPhys      == <<2, 0, 1>>
+MCSpare0    == <<>>
+MCSpare2    == <<2, 1>>          \* two spare frames: one on GPU 2, one on GPU 1
 MCBufs1     == <<[s |-> 0, n |-> 4, ctx |-> 1], [s |-> 4, n |-> 2, ctx |-> 1]>>
 MCBufs2     == <<[s |-> 0, n |-> 2, ctx |-> 1], [s |-> 2, n |-> 2, ctx |-> 2], [s |-> 4, n |-> 2, ctx |-> 1]>>
 MCRanges    == {<<0, 1>>, <<1, 1>>, <<1, 2>>, <<0, 4>>, <<1, 4>>, <<3, 3>>, <<2, 2>>, <<0, 6>>, <<4, 2>>, <<5, 1>>, <<2, 3>>}
